@@ -74,8 +74,14 @@ def _line_source_problem(P, ity):
     return "is nested too deeply to analyse"
 
 
+def _enum_of_files(l):
+    """Enumerate over the vector of input files / readers (a file index for diagnostics), not over lines"""
+    t0 = ((l.next.func.get("res_targs") or l.next.targs) or [""])[0]
+    return bool(re.search(L.ENUM_NEXT, short(l.next.name))) and t0.startswith("alloc::vec::into_iter::IntoIter<") and "std::io::Lines<" not in t0
+
+
 def _line_loop(R, f):
-    loops = [l for l in L.input_loops(f) if L.is_line_loop(l) or re.search(L.ENUM_NEXT, short(l.next.name))]
+    loops = [l for l in L.input_loops(f) if (L.is_line_loop(l) or re.search(L.ENUM_NEXT, short(l.next.name))) and not _enum_of_files(l)]
     if len(loops) != 1 or not loops[0].ok:
         return None
     return loops[0]
@@ -150,6 +156,10 @@ def run(R):
         R.violation("C12.iter", "with_output_printer|reorder", "the reader list is reordered/filtered when it is built", [wf.loc()])
     elif any(n.endswith("Iterator::map") for n in names) and any(n.endswith("Iterator::collect") for n in names):
         R.ok("C12.iter", "with_output_printer", "readers = files.into_iter().map(BufReader::new).collect() (order preserving)", wf.loc())
+    elif [st for i_, st in wf.stmts() if st["k"] == "assign" and st["rv"]["k"] == "aggr" and (st["rv"].get("adt") or "").endswith("FileExecutor") and
+          any(op.get("ty") == "alloc::vec::Vec<std::fs::File>" and
+              all(o.kind == "arg" for o in F.origins(wf, op, depth=6, through_calls=False)) for op in st["rv"]["ops"] if isinstance(op, dict))]:
+        R.ok("C12.iter", "with_output_printer", "the file list is stored as it was passed in", wf.loc())
     else:
         R.violation("C12.iter", "with_output_printer|shape", "unrecognised construction of the reader list: %s" % names, [wf.loc()])
     # outer loop over the readers
@@ -157,8 +167,12 @@ def run(R):
     outer = [l for l in L.input_loops(f) if re.search(L.READERS_NEXT, short(l.next.name))]
     flat = [l for l in L.input_loops(f) if "adapters::flatten::FlatMap<alloc::vec::into_iter::IntoIter<" + BUFREADER_FILE in (l.next.targs or [""])[0]
             and _line_source_problem(P, (l.next.targs or [""])[0]) is None]
-    if len(outer) == 1 and (outer[0].next.func.get("res_targs") or [""])[0] == BUFREADER_FILE:
+    enum_outer = [l for l in L.input_loops(f) if _enum_of_files(l)]
+    if len(outer) == 1 and (outer[0].next.func.get("res_targs") or [""])[0] in (BUFREADER_FILE, "std::fs::File"):
         R.ok("C12.iter", "FileExecutor::execute|file-loop", "for reader in readers.into_iter()", outer[0].next.loc())
+    elif not outer and len(enum_outer) == 1 and re.match(r"^alloc::vec::into_iter::IntoIter<(%s|std::fs::File)(, [^<>]*)?>$" % re.escape(BUFREADER_FILE),
+                                                         ((enum_outer[0].next.func.get("res_targs") or enum_outer[0].next.targs) or [""])[0]):
+        R.ok("C12.iter", "FileExecutor::execute|file-loop", "for (index, reader) in readers.into_iter().enumerate()", enum_outer[0].next.loc())
     elif not outer and len(flat) == 1:
         R.ok("C12.iter", "FileExecutor::execute|file-loop", "readers.into_iter().flat_map(|r| r.lines()): files in order, lines in order",
              flat[0].next.loc())
